@@ -1,7 +1,892 @@
-//! stub
+//! The command line tool: C15 (faithful output), C16 (options and formats), C17 (rejections).
+//! Game files are generated from an abstract named game, so "the game exactly as written in the
+//! file" is known to the generator and never re-derived from the program under test.
+use crate::core::*;
+use crate::gen::*;
+use crate::solve_props::Params;
 use crate::Ctx;
-use serde_json::Value;
-pub fn case_cli(_ctx: &mut Ctx, _case: &Value) {}
-pub fn c15(_ctx: &mut Ctx) -> String { String::new() }
-pub fn c16(_ctx: &mut Ctx) -> String { String::new() }
-pub fn c17(_ctx: &mut Ctx) -> String { String::new() }
+use cfr::{PlayerNum, SolveMethod};
+use serde_json::{json, Value};
+use std::collections::{BTreeMap, BTreeSet, HashMap};
+use std::io::Write;
+use std::process::{Command, Stdio};
+
+/// an abstract two-player constant-sum game with string names
+#[derive(Clone, Debug)]
+pub enum NG {
+    /// payoff to player one (player two gets K minus it)
+    Term(f64),
+    Chance(Option<u32>, Vec<(String, u32, NG)>),
+    Player(bool, u32, Vec<(String, NG)>),
+}
+
+#[derive(Clone, Debug)]
+pub struct Names {
+    /// infoset id -> (name used by the program, name written in the gambit file or None)
+    pub info: [BTreeMap<u32, (String, Option<String>)>; 2],
+}
+
+fn act_name(rng: &mut Rng, k: usize) -> String {
+    // names whose sorted order differs from the listed order
+    let pool = ["raise", "call", "fold", "bet", "check", "x", "a b", "Z", "07", "7"];
+    format!("{}{}", pool[(rng.below(pool.len() as u64) as usize + k * 3) % pool.len()], k)
+}
+
+/// turn a numeric tree into a named game; payoffs are rounded to multiples of 1/8 so that all
+/// constant-sum arithmetic is exact
+pub fn name_game(rng: &mut Rng, t: &T) -> (NG, Names) {
+    let mut names = Names { info: [BTreeMap::new(), BTreeMap::new()] };
+    let mut acts: [HashMap<(u32, u32), String>; 2] = [HashMap::new(), HashMap::new()];
+    fn go(rng: &mut Rng, t: &T, names: &mut Names, acts: &mut [HashMap<(u32, u32), String>; 2]) -> NG {
+        match t {
+            T::Term(p) => NG::Term((p * 8.0).round() / 8.0),
+            T::Chance(i, o) => {
+                let mut outs = Vec::new();
+                for (k, (w, c)) in o.iter().enumerate() {
+                    // integer weights 1..16
+                    let wi = ((w * 4.0).round() as i64).clamp(1, 16) as u32;
+                    outs.push((format!("o{}", (k * 7 + 3) % 10), wi, go(rng, c, names, acts)));
+                }
+                // distinct outcome names
+                let mut seen = BTreeSet::new();
+                for (k, o) in outs.iter_mut().enumerate() {
+                    if !seen.insert(o.0.clone()) {
+                        o.0 = format!("{}_{}", o.0, k);
+                        seen.insert(o.0.clone());
+                    }
+                }
+                NG::Chance(*i, outs)
+            }
+            T::Player(one, i, a) => {
+                let p = if *one { 0 } else { 1 };
+                if !names.info[p].contains_key(i) {
+                    let unnamed = rng.chance(0.3);
+                    // gambit infoset numbers are i + 1; an unnamed infoset is called by its number
+                    let nm = if unnamed { format!("{}", i + 1) } else { format!("I{}-{}", p + 1, i) };
+                    names.info[p].insert(*i, (nm.clone(), if unnamed { None } else { Some(nm) }));
+                }
+                let mut out = Vec::new();
+                for (k, (x, c)) in a.iter().enumerate() {
+                    let key = (*i, *x);
+                    if !acts[p].contains_key(&key) {
+                        let n = act_name(rng, k);
+                        acts[p].insert(key, n);
+                    }
+                    out.push((acts[p][&key].clone(), go(rng, c, names, acts)));
+                }
+                NG::Player(*one, *i, out)
+            }
+        }
+    }
+    let ng = go(rng, t, &mut names, &mut acts);
+    (ng, names)
+}
+
+/// the numeric tree the program's library call sees: actions sorted by name, outcomes by
+/// (name, probability); labels interned
+pub struct Interned {
+    pub tree: T,
+    pub info_of: [BTreeMap<String, u32>; 2],
+    pub act_of: BTreeMap<String, u32>,
+}
+
+pub fn intern(ng: &NG, names: &Names, offset: f64, gambit: bool) -> Interned {
+    let mut act_of: BTreeMap<String, u32> = BTreeMap::new();
+    let mut info_of: [BTreeMap<String, u32>; 2] = [BTreeMap::new(), BTreeMap::new()];
+    fn go(ng: &NG, names: &Names, offset: f64, gambit: bool, act_of: &mut BTreeMap<String, u32>, info_of: &mut [BTreeMap<String, u32>; 2]) -> T {
+        match ng {
+            NG::Term(p) => T::Term(p - offset),
+            NG::Chance(i, outs) => {
+                let tot: u32 = outs.iter().map(|o| o.1).sum();
+                let mut v: Vec<(String, f64, &NG)> = outs
+                    .iter()
+                    .map(|(n, w, c)| (n.clone(), if gambit { *w as f64 / tot as f64 } else { *w as f64 }, c))
+                    .collect();
+                v.sort_by(|a, b| (&a.0, a.1).partial_cmp(&(&b.0, b.1)).unwrap());
+                T::Chance(*i, v.into_iter().map(|(_, w, c)| (w, go(c, names, offset, gambit, act_of, info_of))).collect())
+            }
+            NG::Player(one, i, acts) => {
+                let p = if *one { 0 } else { 1 };
+                let nm = names.info[p][i].0.clone();
+                let next = info_of[p].len() as u32;
+                let label = *info_of[p].entry(nm).or_insert(next);
+                let mut v: Vec<(&String, &NG)> = acts.iter().map(|(n, c)| (n, c)).collect();
+                v.sort_by(|a, b| a.0.cmp(b.0));
+                T::Player(
+                    *one,
+                    label,
+                    v.into_iter()
+                        .map(|(n, c)| {
+                            let nx = act_of.len() as u32;
+                            let a = *act_of.entry(n.clone()).or_insert(nx);
+                            (a, go(c, names, offset, gambit, act_of, info_of))
+                        })
+                        .collect(),
+                )
+            }
+        }
+    }
+    let tree = go(ng, names, offset, gambit, &mut act_of, &mut info_of);
+    Interned { tree, info_of, act_of }
+}
+
+fn jstr(s: &str) -> String {
+    serde_json::to_string(s).unwrap()
+}
+
+pub fn to_json_file(ng: &NG, names: &Names) -> String {
+    match ng {
+        NG::Term(p) => format!("{{\"terminal\": {:?}}}", p),
+        NG::Chance(i, outs) => {
+            let body: Vec<String> = outs
+                .iter()
+                .map(|(n, w, c)| format!("{}: {{\"prob\": {:?}, \"state\": {}}}", jstr(n), *w as f64, to_json_file(c, names)))
+                .collect();
+            let info = match i {
+                Some(l) => format!("\"infoset\": {}, ", jstr(&format!("c{}", l))),
+                None => String::new(),
+            };
+            format!("{{\"chance\": {{{}\"outcomes\": {{{}}}}}}}", info, body.join(", "))
+        }
+        NG::Player(one, i, acts) => {
+            let p = if *one { 0 } else { 1 };
+            let body: Vec<String> = acts.iter().map(|(n, c)| format!("{}: {}", jstr(n), to_json_file(c, names))).collect();
+            format!(
+                "{{\"player\": {{\"player_one\": {}, \"infoset\": {}, \"actions\": {{{}}}}}}}",
+                one,
+                jstr(&names.info[p][i].0),
+                body.join(", ")
+            )
+        }
+    }
+}
+
+/// write a gambit file: constant sum `k`, part of each path's payoff attached to interior nodes,
+/// outcomes shared between terminals with equal payoffs
+pub struct EfgWriter<'a> {
+    pub rng: &'a mut Rng,
+    pub names: &'a Names,
+    pub k: f64,
+    pub next_outcome: u64,
+    pub shared: BTreeMap<(i64, i64), u64>,
+    pub anon_chance: u64,
+    pub interior: bool,
+}
+
+fn dyadic(x: f64) -> String {
+    // multiples of 1/8 written exactly
+    let n = (x * 8.0).round() as i64;
+    if n % 8 == 0 {
+        format!("{}", n / 8)
+    } else {
+        format!("{}/8", n)
+    }
+}
+
+impl EfgWriter<'_> {
+    fn pays(&self, one: f64, carried: f64) -> String {
+        // the terminal's own payoffs complete what interior nodes carried: u1 = one, u2 = k - one
+        format!("{{ {}, {} }}", dyadic(one - carried), dyadic(self.k - one - carried))
+    }
+    pub fn node(&mut self, ng: &NG, carried: f64, out: &mut String) {
+        match ng {
+            NG::Term(p) => {
+                let key = (((p - carried) * 8.0).round() as i64, ((self.k - p - carried) * 8.0).round() as i64);
+                let (id, first) = match self.shared.get(&key) {
+                    Some(id) if self.rng.chance(0.7) => (*id, false),
+                    _ => {
+                        self.next_outcome += 1;
+                        self.shared.insert(key, self.next_outcome);
+                        (self.next_outcome, true)
+                    }
+                };
+                let _ = first;
+                out.push_str(&format!("t \"\" {} \"out{}\" {}\n", id, id, self.pays(*p, carried)));
+            }
+            NG::Chance(i, outs) => {
+                let tot: u32 = outs.iter().map(|o| o.1).sum();
+                let id = match i {
+                    Some(l) => *l as u64 + 1,
+                    None => {
+                        self.anon_chance += 1;
+                        1000 + self.anon_chance
+                    }
+                };
+                let acts: Vec<String> = outs.iter().map(|(n, w, _)| format!("{} {}/{}", jstr(n), w, tot)).collect();
+                let (oc, add) = self.interior_outcome(false);
+                out.push_str(&format!("c \"\" {} \"\" {{ {} }} {}\n", id, acts.join(" "), oc));
+                for (_, _, c) in outs {
+                    self.node(c, carried + add, out);
+                }
+            }
+            NG::Player(one, i, acts) => {
+                let p = if *one { 0 } else { 1 };
+                let nm = match &self.names.info[p][i].1 {
+                    Some(n) => format!(" {}", jstr(n)),
+                    None => String::new(),
+                };
+                let list: Vec<String> = acts.iter().map(|(n, _)| jstr(n)).collect();
+                let (oc, add) = self.interior_outcome(true);
+                out.push_str(&format!("p \"\" {} {}{} {{ {} }} {}\n", p + 1, i + 1, nm, list.join(" "), oc));
+                for (_, c) in acts {
+                    self.node(c, carried + add, out);
+                }
+            }
+        }
+    }
+    /// sometimes attach an outcome `{ d, d }` to an interior node (both players get `d`; the
+    /// terminals below compensate) — returns the text after the action list and the carried amount
+    fn interior_outcome(&mut self, named: bool) -> (String, f64) {
+        if self.interior && self.rng.chance(0.2) {
+            let d = (self.rng.range(0, 8) as f64 - 4.0) / 8.0;
+            self.next_outcome += 1;
+            let name = if named { format!(" \"mid{}\"", self.next_outcome) } else { String::new() };
+            (format!("{}{} {{ {}, {} }}", self.next_outcome, name, dyadic(d), dyadic(d)), d)
+        } else {
+            ("0".to_string(), 0.0)
+        }
+    }
+}
+
+pub fn to_efg_file(rng: &mut Rng, ng: &NG, names: &Names, k: f64, interior: bool) -> String {
+    let mut out = String::from("EFG 2 R \"generated\" { \"one\" \"two\" }\n\"a generated game\"\n\n");
+    let mut w = EfgWriter { rng, names, k, next_outcome: 0, shared: BTreeMap::new(), anon_chance: 0, interior };
+    w.node(ng, 0.0, &mut out);
+    out
+}
+
+/// deepest game tree whose JSON encoding serde_json still parses (3 JSON levels per game level)
+pub const JSON_MAX_DEPTH: usize = 40;
+
+pub struct Run {
+    pub status: Option<i32>,
+    pub stdout: String,
+    pub stderr: String,
+}
+
+pub fn run_cfr(ctx: &Ctx, args: &[String], stdin: Option<&str>) -> Run {
+    let mut cmd = Command::new(&ctx.cfr_bin);
+    cmd.args(args).env("RUST_BACKTRACE", "0").stdin(Stdio::piped()).stdout(Stdio::piped()).stderr(Stdio::piped());
+    let mut child = cmd.spawn().expect("cannot run the cfr binary");
+    {
+        let mut si = child.stdin.take().unwrap();
+        if let Some(s) = stdin {
+            let _ = si.write_all(s.as_bytes());
+        }
+    }
+    let out = child.wait_with_output().expect("cfr did not finish");
+    Run {
+        status: out.status.code(),
+        stdout: String::from_utf8_lossy(&out.stdout).to_string(),
+        stderr: String::from_utf8_lossy(&out.stderr).to_string(),
+    }
+}
+
+fn scratch_file(ctx: &Ctx, name: &str, content: &str) -> String {
+    let _ = std::fs::create_dir_all(&ctx.scratch);
+    let p = format!("{}/{}", ctx.scratch, name);
+    std::fs::write(&p, content).unwrap();
+    p
+}
+
+/// parse the printed strategies into numeric named strategies through the interning maps
+fn printed_named(v: &Value, it: &Interned, names: &Names, t: &T) -> Result<[Named; 2], String> {
+    let mut out = [Vec::new(), Vec::new()];
+    let _ = names;
+    let infos = infosets_of(t);
+    for (p, key) in ["player_one_strategy", "player_two_strategy"].iter().enumerate() {
+        let m = v.get(*key).and_then(|x| x.as_object()).ok_or(format!("no {}", key))?;
+        for (iname, acts) in m {
+            let l = *it.info_of[p].get(iname).ok_or(format!("printed infoset {:?} is not in the file", iname))?;
+            let mut av = Vec::new();
+            for (aname, pr) in acts.as_object().ok_or("actions are not an object")? {
+                let a = *it.act_of.get(aname).ok_or(format!("printed action {:?} is not in the file", aname))?;
+                if !infos[p].get(&l).map(|x| x.contains(&a)).unwrap_or(false) {
+                    return Err(format!("printed action {:?} is not an action of infoset {:?}", aname, iname));
+                }
+                av.push((a, pr.as_f64().ok_or("probability is not a number")?));
+            }
+            out[p].push((l, av));
+        }
+        // every infoset of the file must be there
+        for l in infos[p].keys() {
+            if !out[p].iter().any(|x| x.0 == *l) {
+                return Err(format!("player {} infoset with label {} is missing from the output", p + 1, l));
+            }
+        }
+    }
+    Ok(out)
+}
+
+fn case_ng(case: &Value) -> (T, u64) {
+    (T::from_json(&case["tree"]).expect("case without tree"), case["nseed"].as_u64().unwrap_or(0))
+}
+
+/// one run of the binary on a generated valid file
+pub fn case_cli(ctx: &mut Ctx, case: &Value) {
+    ctx.record_current(case);
+    let (t, nseed) = case_ng(case);
+    let mut nrng = Rng::new(nseed);
+    let (ng, names) = name_game(&mut nrng, &t);
+    let format = case["format"].as_str().unwrap_or("json");
+    let k = case["k"].as_f64().unwrap_or(0.0);
+    let gambit = format == "gambit";
+    let content = if gambit {
+        to_efg_file(&mut nrng, &ng, &names, k, case["interior"].as_bool().unwrap_or(false))
+    } else {
+        to_json_file(&ng, &names)
+    };
+    let method = case["method"].as_str().unwrap_or("full");
+    let preset = case["discount"].as_str().unwrap_or("dcfr");
+    let iters = case["t"].as_u64().unwrap_or(20);
+    let maxreg = case["r"].as_f64().unwrap_or(0.0);
+    let par = case["p"].as_u64().unwrap_or(1);
+    let clip = case["c"].as_f64().unwrap_or(0.0);
+    let route = case["route"].as_str().unwrap_or("file-ext");
+    let mut args: Vec<String> = vec![
+        "-m".into(), method.into(), "-d".into(), preset.into(), "-t".into(), iters.to_string(),
+        "-r".into(), format!("{:?}", maxreg), "-p".into(), par.to_string(), "-c".into(), format!("{:?}", clip),
+    ];
+    let ext = if gambit { "efg" } else { "json" };
+    let mut stdin = None;
+    match route {
+        "stdin-auto" => stdin = Some(content.as_str()),
+        "stdin-explicit" => {
+            stdin = Some(content.as_str());
+            args.extend(["--input-format".to_string(), format.to_string()]);
+        }
+        "file-other-auto" => {
+            let f = scratch_file(ctx, "game.txt", &content);
+            args.extend(["-i".to_string(), f]);
+        }
+        "file-other-explicit" => {
+            let f = scratch_file(ctx, "game.dat", &content);
+            args.extend(["-i".to_string(), f, "--input-format".to_string(), format.to_string()]);
+        }
+        _ => {
+            let f = scratch_file(ctx, &format!("game.{}", ext), &content);
+            args.extend(["-i".to_string(), f]);
+        }
+    }
+    let to_file = case["outfile"].as_bool().unwrap_or(false);
+    let outpath = format!("{}/out.json", ctx.scratch);
+    if to_file {
+        let _ = std::fs::create_dir_all(&ctx.scratch);
+        let _ = std::fs::remove_file(&outpath);
+        args.extend(["-o".to_string(), outpath.clone()]);
+    }
+    let run = run_cfr(ctx, &args, stdin);
+    ctx.stat(&format!("format_{}", format));
+    ctx.stat(&format!("route_{}", route));
+    ctx.stat(&format!("method_{}", method));
+    let shown = json!({"args": args, "file": content});
+    if run.status != Some(0) {
+        return ctx.fail_prop(case, format!("valid {} file: exit status {:?}, stderr {:?}; {}", format, run.status, &run.stderr[..run.stderr.len().min(300)], shown));
+    }
+    let text = if to_file {
+        if !run.stdout.is_empty() {
+            ctx.fail_prop(case, "output file requested but stdout is not empty".to_string());
+        }
+        std::fs::read_to_string(&outpath).unwrap_or_default()
+    } else {
+        run.stdout.clone()
+    };
+    let v: Value = match serde_json::from_str(&text) {
+        Ok(v) => v,
+        Err(e) => return ctx.fail_prop(case, format!("output is not one JSON object: {} ({:?})", e, &text[..text.len().min(200)])),
+    };
+    // the numeric game the library call sees, and the game as written in the file (payoffs u1)
+    let offset = if gambit { k / 2.0 } else { 0.0 };
+    let it = intern(&ng, &names, offset, gambit);
+    let it_file = intern(&ng, &names, 0.0, gambit);
+    let named = match printed_named(&v, &it, &names, &it.tree) {
+        Ok(n) => n,
+        Err(e) => return ctx.fail_prop(case, format!("printed strategies: {}; {}", e, shown)),
+    };
+    for p in 0..2 {
+        if let Err(e) = named_valid(&named[p]) {
+            ctx.fail_prop(case, format!("printed strategy of player {} is not a valid behavioural strategy: {}", p + 1, e));
+            return;
+        }
+    }
+    let num = |k: &str| v.get(k).and_then(|x| x.as_f64()).unwrap_or(f64::NAN);
+    let (pu1, pu2, pr1, pr2, preg) = (num("player_one_utility"), num("player_two_utility"), num("player_one_regret"), num("player_two_regret"), num("regret"));
+    // independent evaluation of the printed strategies on the game as written in the file
+    let beh = beh_of_named(&named);
+    let sc = {
+        let mut pv = Vec::new();
+        it_file.tree.payoffs(&mut pv);
+        pv.iter().fold(1.0f64, |a, b| a.max(b.abs())).max(k.abs())
+    };
+    let tol = 1e-9 * sc;
+    let u1 = ev_raw(&it_file.tree, &beh, &[None, None]);
+    let u2 = k - u1;
+    if !close_tol(pu1, u1, tol) || !close_tol(pu2, u2, tol) {
+        ctx.fail_prop(case, format!("printed utilities ({:e}, {:e}); evaluating the printed strategies on the file's own payoffs gives ({:e}, {:e}) (constant sum {}); {}", pu1, pu2, u1, u2, k, shown));
+    }
+    if preg != f64::max(pr1, pr2) {
+        ctx.fail_prop(case, format!("printed regret {:e} is not the larger of {:e} and {:e}", preg, pr1, pr2));
+    }
+    // regrets: through the model's evaluator (the proven oracle) on the file game
+    let mut req = "eval ".to_string();
+    it_file.tree.ser(&mut req);
+    req.push(' ');
+    ser_named(&named[0], &mut req);
+    req.push(' ');
+    ser_named(&named[1], &mut req);
+    let resp = ctx.model.ask(&req);
+    let mut tk = Toks::new(&resp);
+    if tk.tok() == "ok" {
+        let (mu, m1, m2) = (tk.f(), tk.f(), tk.f());
+        if !(close_tol(mu, pu1, tol) && close_tol(m1, pr1, tol) && close_tol(m2, pr2, tol)) {
+            ctx.fail_prop(case, format!("printed utility/regrets ({:e}; {:e}, {:e}); the evaluator on the file game gives ({:e}; {:e}, {:e}); {}", pu1, pr1, pr2, mu, m1, m2, shown));
+        }
+    } else {
+        ctx.fail_corr(case, format!("model could not evaluate the printed strategies: {}", resp));
+    }
+    for p in 0..2 {
+        let np = num_pure(&it_file.tree, p);
+        if np <= 1024 && np.saturating_mul(it_file.tree.size() as u64) <= 1_000_000 {
+            let br = brute_br(&it_file.tree, &beh, p);
+            let up = if p == 0 { u1 } else { -u1 };
+            let want = f64::max(br - up, 0.0);
+            let got = if p == 0 { pr1 } else { pr2 };
+            if !close_tol(want, got, tol) {
+                ctx.fail_prop(case, format!("printed regret of player {} is {:e}; best unilateral gain on the file game is {:e}", p + 1, got, want));
+            }
+        }
+    }
+    // C16: the options select the library behaviour
+    if case["compare_library"].as_bool().unwrap_or(false) && method == "full" {
+        let params = match preset {
+            "vanilla" => Params::vanilla(),
+            "lcfr" => Params::lcfr(),
+            "cfr-plus" => Params::cfr_plus(),
+            "dcfr-prune" => Params::dcfr_prune(),
+            _ => Params::dcfr(),
+        };
+        match build(&it.tree) {
+            Err(e) => ctx.fail_prop(case, format!("the library rejects the game of a file the program solved: {:?}", e)),
+            Ok(g) => {
+                let max_iters = if iters == 0 { u64::MAX } else { iters };
+                match g.solve(SolveMethod::Full, max_iters, maxreg, par as usize, Some(params.to_lib())) {
+                    Err(e) => ctx.fail_prop(case, format!("library solve failed: {:?}", e)),
+                    Ok((s, _)) => {
+                        let info = s.get_info();
+                        let mut pruned = s.clone();
+                        pruned.truncate(clip);
+                        let pinfo = pruned.get_info();
+                        let unpruned_named = drain_named(&s);
+                        let pruned_named = drain_named(&pruned);
+                        let use_pruned = pinfo.regret() < info.regret();
+                        // the two processes may differ in the last place: at a knife edge of the
+                        // clip decision either profile is accepted
+                        let knife = (pinfo.regret() - info.regret()).abs() <= 1e-9 * sc;
+                        if use_pruned {
+                            ctx.stat("clip_pruned_profile_expected");
+                        }
+                        let dist = |w: &[Named; 2]| named_diff(&w[0], &named[0]).max(named_diff(&w[1], &named[1]));
+                        let d = if use_pruned { dist(&pruned_named) } else { dist(&unpruned_named) };
+                        let d_other = if use_pruned { dist(&unpruned_named) } else { dist(&pruned_named) };
+                        if d <= 1e-8 {
+                            ctx.stat("matches_library");
+                            if d == 0.0 {
+                                ctx.stat("matches_library_bit_equal");
+                            }
+                        } else if knife && d_other <= 1e-8 {
+                            ctx.skipped_illcond += 1;
+                        } else {
+                            ctx.fail_prop(case, format!("printed strategies differ from Game::solve with the same parameters{} by {:e}; {}", if clip > 0.0 { " and clip step" } else { "" }, d, shown));
+                        }
+                        let _ = PlayerNum::One;
+                    }
+                }
+            }
+        }
+    }
+    let mut h = t.hash() ^ mix64(nseed);
+    for a in &args {
+        for b in a.bytes() {
+            h = (h ^ b as u64).wrapping_mul(0x100000001b3);
+        }
+    }
+    ctx.count(h, t.size() >= 3);
+}
+
+fn cli_game(ctx: &mut Ctx, i: u64) -> T {
+    loop {
+        let mut cfg = if i % 3 == 0 { ObsCfg::medium() } else { ObsCfg::small() };
+        cfg.int_payoffs = i % 2 == 0;
+        cfg.max_nodes = cfg.max_nodes.min(120);
+        let t = match i % 9 {
+            7 => kuhn(3),
+            8 => adversarial(&mut ctx.rng, i / 9),
+            _ => gen_obs(&mut ctx.rng, &cfg),
+        };
+        // payoffs are rounded to multiples of 1/8 by the naming step; deep chains are too big for a file
+        if t.size() <= 300 && build(&t).is_ok() {
+            return t;
+        }
+    }
+}
+
+fn gen_cli_case(ctx: &mut Ctx, i: u64, compare_library: bool) -> Value {
+    let t = cli_game(ctx, i);
+    // JSON files nested deeper than serde_json's recursion limit (128 values, about 42 game levels)
+    // are rejected: known finding F29, excluded here by its class predicate
+    let gambit = ctx.rng.chance(0.5) || t.depth() > JSON_MAX_DEPTH;
+    let method = if compare_library { "full" } else { *ctx.rng.pick(&["full", "sampled", "external"]) };
+    let k = if gambit { *ctx.rng.pick(&[0.0, 0.0, 1.0, 4.0, -2.5, 10.0]) } else { 0.0 };
+    json!({
+        "op": "cli", "tree": t.to_json(), "nseed": ctx.rng.next() >> 12,
+        "format": if gambit { "gambit" } else { "json" },
+        "k": k, "interior": gambit && ctx.rng.chance(0.5),
+        "method": method,
+        "discount": *ctx.rng.pick(&["vanilla", "lcfr", "cfr-plus", "dcfr", "dcfr-prune"]),
+        "t": *ctx.rng.pick(&[1u64, 2, 5, 20, 60]),
+        "r": *ctx.rng.pick(&[0.0, 0.0, 0.05, 0.5]),
+        "p": if compare_library { *ctx.rng.pick(&[1u64, 1, 1, 2]) } else { *ctx.rng.pick(&[0u64, 1, 2, 3]) },
+        "c": *ctx.rng.pick(&[0.0, 0.0, 0.01, 0.1, 0.3, 0.6]),
+        "route": *ctx.rng.pick(&["file-ext", "file-ext", "stdin-auto", "stdin-explicit", "file-other-auto", "file-other-explicit"]),
+        "outfile": ctx.rng.chance(0.25),
+        "compare_library": compare_library,
+    })
+}
+
+pub fn c15(ctx: &mut Ctx) -> String {
+    let n = if ctx.thorough { 4000 } else { 260 };
+    for i in 0..n {
+        if ctx.out_of_time() {
+            break;
+        }
+        let case = gen_cli_case(ctx, i, false);
+        if i < 2 {
+            ctx.sample(json!({"format": case["format"], "k": case["k"], "method": case["method"], "discount": case["discount"], "route": case["route"], "tree_line": T::from_json(&case["tree"]).unwrap().to_line()}));
+        }
+        case_cli(ctx, &case);
+    }
+    "generated valid JSON-DSL and Gambit files (constant sums 0, 1, 4, -2.5, 10; payoffs attached to interior nodes; shared outcomes; unnamed infosets; rational chance probabilities; action lists in non-sorted order) x methods x presets x -t x -r x -p x -c x input routes x output destination; the printed strategies are re-evaluated on the game as written in the file by an independent evaluator, by the model's evaluator and (small games) by brute force over pure strategies".to_string()
+}
+
+pub fn c16(ctx: &mut Ctx) -> String {
+    let n = if ctx.thorough { 3000 } else { 220 };
+    for i in 0..n {
+        if ctx.out_of_time() {
+            break;
+        }
+        let case = gen_cli_case(ctx, i, true);
+        if i < 2 {
+            ctx.sample(json!({"format": case["format"], "k": case["k"], "discount": case["discount"], "t": case["t"], "r": case["r"], "p": case["p"], "c": case["c"], "route": case["route"], "outfile": case["outfile"]}));
+        }
+        case_cli(ctx, &case);
+        // a JSON and a Gambit encoding of the same game give the same solution
+        if i % 4 == 0 && T::from_json(&case["tree"]).map(|t| t.depth() <= JSON_MAX_DEPTH).unwrap_or(false) {
+            let mut a = case.clone();
+            let mut b = case.clone();
+            a["format"] = json!("json");
+            a["k"] = json!(0.0);
+            b["format"] = json!("gambit");
+            b["k"] = json!(0.0);
+            b["interior"] = json!(false);
+            for c in [&mut a, &mut b] {
+                c["route"] = json!("file-ext");
+                c["outfile"] = json!(false);
+                c["p"] = json!(1);
+            }
+            let ra = twin_output(ctx, &a);
+            let rb = twin_output(ctx, &b);
+            match (ra, rb) {
+                (Some(x), Some(y)) => {
+                    let d = named_diff(&x[0], &y[0]).max(named_diff(&x[1], &y[1]));
+                    if !(d <= 1e-9) {
+                        ctx.fail_prop(&a, format!("the JSON and the Gambit encoding of one game give solutions differing by {:e}", d));
+                    } else {
+                        ctx.stat("json_gambit_twins_agree");
+                    }
+                }
+                _ => ctx.fail_prop(&a, "a twin encoding could not be solved".to_string()),
+            }
+        }
+    }
+    // zero iterations means no limit: needs a positive regret threshold
+    let t = kuhn(3);
+    let case = json!({"op": "cli", "tree": t.to_json(), "nseed": 5, "format": "json", "k": 0.0, "method": "full", "discount": "dcfr",
+        "t": 0, "r": 0.05, "p": 1, "c": 0.0, "route": "file-ext", "outfile": false, "compare_library": true});
+    case_cli(ctx, &case);
+    "generated valid files x -m full x -d x -t (incl. 0 = unlimited with -r > 0) x -r x -p {1, 2} x -c x input routes {file by extension, stdin auto, stdin explicit, other extension auto / explicit} x {-o file, stdout}: printed strategies against Game::solve + truncate + get_info called in-process with the mapped arguments (bit-equal for -p 1); JSON / Gambit twins of one game".to_string()
+}
+
+fn twin_output(ctx: &mut Ctx, case: &Value) -> Option<[Named; 2]> {
+    let (t, nseed) = case_ng(case);
+    let mut nrng = Rng::new(nseed);
+    let (ng, names) = name_game(&mut nrng, &t);
+    let gambit = case["format"].as_str() == Some("gambit");
+    let content = if gambit { to_efg_file(&mut nrng, &ng, &names, 0.0, false) } else { to_json_file(&ng, &names) };
+    let f = scratch_file(ctx, if gambit { "twin.efg" } else { "twin.json" }, &content);
+    let args: Vec<String> = vec![
+        "-m".into(), "full".into(), "-d".into(), case["discount"].as_str().unwrap_or("dcfr").into(),
+        "-t".into(), case["t"].as_u64().unwrap_or(5).to_string(), "-p".into(), "1".into(), "-i".into(), f,
+    ];
+    let run = run_cfr(ctx, &args, None);
+    if run.status != Some(0) {
+        return None;
+    }
+    let v: Value = serde_json::from_str(&run.stdout).ok()?;
+    let it = intern(&ng, &names, 0.0, gambit);
+    printed_named(&v, &it, &names, &it.tree).ok()
+}
+
+// ---------------------------------------------------------------------------------------------
+// C17
+
+pub fn c17(ctx: &mut Ctx) -> String {
+    let n = if ctx.thorough { 3000 } else { 240 };
+    for i in 0..n {
+        if ctx.out_of_time() {
+            break;
+        }
+        let t = cli_game(ctx, i);
+        let mut nrng = ctx.rng.fork();
+        let (ng, names) = name_game(&mut nrng, &t);
+        let gambit = i % 2 == 1;
+        let k = if gambit { *ctx.rng.pick(&[0.0, 2.0]) } else { 0.0 };
+        let good = if gambit { to_efg_file(&mut nrng, &ng, &names, k, false) } else { to_json_file(&ng, &names) };
+        // (corrupted text, expected diagnostic category or "" when only rejection is required)
+        let kind = ctx.rng.below(if gambit { 12 } else { 10 });
+        let (bad, what, expect): (String, &str, &str) = if !gambit {
+            match kind {
+                0 => (good[..good.len() * 2 / 3].to_string(), "truncated", "json-error"),
+                1 => (good.replacen("\"prob\"", "\"probability\"", 1), "renamed-field-prob", "json-error"),
+                2 => (good.replacen("\"player_one\": true", "\"player_one\": 1", 1).replacen("\"player_one\": false", "\"player_one\": 0", 1), "wrong-type-player_one", "json-error"),
+                3 => (good.replacen("\"terminal\": ", "\"terminal\": \"x\", \"y\": ", 1), "wrong-type-terminal", "json-error"),
+                4 => (replace_first_prob(&good, "0.0"), "zero-probability", "game-error"),
+                5 => (replace_first_prob(&good, "-1.0"), "negative-probability", "game-error"),
+                6 => (good.replacen("\"actions\": {", "\"moves\": {", 1), "renamed-field-actions", "json-error"),
+                7 => ("[1, 2, 3]".to_string(), "not-an-object", "json-error"),
+                8 => (good.replacen("\"infoset\": \"", "\"infoset\": 5, \"x\": \"", 1), "wrong-type-infoset", "json-error"),
+                _ => (drop_first_state(&good), "dropped-field-state", "json-error"),
+            }
+        } else {
+            match kind {
+                0 => (good[..good.len() * 2 / 3].trim_end().to_string(), "truncated", "gambit-error"),
+                1 => (
+                    good.replacen("{ \"one\" \"two\" }", "{ \"one\" \"two\" \"three\" }", 1)
+                        .lines()
+                        .map(|l| if l.starts_with("t ") { l.replacen(" }", ", 0 }", 1) } else { l.to_string() })
+                        .collect::<Vec<_>>()
+                        .join("\n"),
+                    "three-players",
+                    "only supports two player games",
+                ),
+                2 => (perturb_payoff(&good), "not-constant-sum", "constant-sum|gambit-error"),
+                3 => (good.replacen("EFG 2 R", "EFG 3 X", 1), "bad-header", "gambit-error"),
+                4 => (good.replacen("p \"\" 1 ", "p \"\" 3 ", 1), "player-number-three", "gambit-error"),
+                5 => (break_probability(&good), "probabilities-do-not-sum-to-one", "gambit-error"),
+                6 => (same_infoset_names(&good), "two-infosets-one-name", "duplicate-infosets"),
+                7 => (number_name_clash(&good), "number-used-as-name", "duplicate-infosets"),
+                8 => (good.replacen(" { ", " { \"dup\" \"dup\" ", 2), "garbled-action-list", ""),
+                9 => (huge_payoffs(&good), "payoffs-beyond-double", "non-finite|gambit-error"),
+                10 => (good.replace("t \"\"", "x \"\""), "unknown-node-kind", "gambit-error"),
+                _ => (String::new(), "empty-input", "gambit-error"),
+            }
+        };
+        if bad == good {
+            ctx.stat("corruption_not_applicable");
+            continue;
+        }
+        let format = if gambit { "gambit" } else { "json" };
+        for route in ["explicit", "auto"] {
+            let mut args: Vec<String> = vec!["-m".into(), "full".into(), "-t".into(), "5".into(), "-p".into(), "1".into()];
+            if route == "explicit" {
+                args.extend(["--input-format".to_string(), format.to_string()]);
+            }
+            let case = json!({"op": "cli-reject", "format": format, "corruption": what, "route": route, "expected_category": expect, "input": bad});
+            ctx.record_current(&case);
+            let run = run_cfr(ctx, &args, Some(&bad));
+            ctx.stat(&format!("corruption_{}_{}", format, what));
+            let solved = run.status == Some(0);
+            if solved || !run.stdout.trim().is_empty() {
+                ctx.fail_prop(&case, format!("{} ({}, {} format): exit status {:?}, stdout {:?}", what, format, route, run.status, &run.stdout[..run.stdout.len().min(200)]));
+            } else {
+                let parse_level = expect.split('|').any(|x| x == "json-error" || x == "gambit-error");
+                let auto_want = format!("{}|auto-error", expect);
+                let want: &str = if route == "auto" && parse_level { &auto_want } else { expect };
+                // with auto-detection a file that one parser accepts surfaces that parser's later diagnostic
+                let names_one = |w: &str| w.split('|').any(|x| run.stderr.contains(x));
+                if !want.is_empty() && !names_one(want) && !(route == "auto" && names_one(expect)) {
+                    ctx.fail_prop(&case, format!("{} ({}, {}): diagnostic does not name {:?}: {:?}", what, format, route, want, &run.stderr[..run.stderr.len().min(400)]));
+                }
+            }
+            let mut h = mix64(i) ^ mix64(kind);
+            for b in bad.bytes().take(4000) {
+                h = (h ^ b as u64).wrapping_mul(0x100000001b3);
+            }
+            ctx.count(h ^ (route.len() as u64), true);
+        }
+        // contract violations of C11 surface as the game-error category
+        if i % 3 == 0 {
+            let (t2, planted) = plant(&mut ctx.rng, &t);
+            if !violations(&t2).is_empty() && !matches!(planted, "nan-payoff") {
+                let (ng2, names2) = name_game(&mut nrng, &t2);
+                if names_ok(&ng2) {
+                    let txt = to_json_file(&ng2, &names2);
+                    let case = json!({"op": "cli-reject", "format": "json", "corruption": format!("contract-{}", planted), "input": txt});
+                    let run = run_cfr(ctx, &["--input-format".to_string(), "json".to_string(), "-t".to_string(), "3".to_string()], Some(&txt));
+                    ctx.stat(&format!("contract_violation_{}", planted));
+                    // the file encoding merges duplicate action / outcome names (maps), which can repair a violation
+                    let it = intern(&ng2, &names2, 0.0, false);
+                    let still = !violations(&it.tree).is_empty();
+                    if still && (run.status == Some(0) || !run.stdout.trim().is_empty()) {
+                        ctx.fail_prop(&case, format!("a tree violating the library contract ({}) was solved", planted));
+                    } else if still && !run.stderr.contains("game-error") && !run.stderr.contains("json-error") {
+                        ctx.fail_prop(&case, format!("contract violation {}: diagnostic names no documented category: {:?}", planted, &run.stderr[..run.stderr.len().min(300)]));
+                    }
+                    ctx.count(t2.hash(), true);
+                }
+            }
+        }
+    }
+    "systematic corruptions of generated valid files under explicit and auto-detected formats: JSON {truncation, renamed / dropped fields, wrong types, zero and negative probabilities, non-object}, Gambit {truncation, three players, payoffs perturbed beyond the constant-sum tolerance, bad header, player number 3, probabilities not summing to one, two infosets with one name, number used as a name, garbled lists, payoffs beyond double range, unknown node kind, empty input}, library contract violations planted in JSON files; required: non-zero exit, empty stdout, diagnostic naming the documented category".to_string()
+}
+
+fn names_ok(ng: &NG) -> bool {
+    // duplicate action names inside a node collapse in a JSON object: skip such files
+    match ng {
+        NG::Term(_) => true,
+        NG::Chance(_, o) => o.iter().all(|x| names_ok(&x.2)),
+        NG::Player(_, _, a) => {
+            let s: BTreeSet<&String> = a.iter().map(|x| &x.0).collect();
+            s.len() == a.len() && a.iter().all(|x| names_ok(&x.1))
+        }
+    }
+}
+
+fn replace_first_prob(s: &str, with: &str) -> String {
+    match s.find("\"prob\": ") {
+        None => s.to_string(),
+        Some(i) => {
+            let start = i + 8;
+            let end = s[start..].find(',').map(|e| start + e).unwrap_or(start);
+            format!("{}{}{}", &s[..start], with, &s[end..])
+        }
+    }
+}
+
+fn drop_first_state(s: &str) -> String {
+    s.replacen(", \"state\": ", ", \"status\": ", 1)
+}
+
+fn perturb_payoff(s: &str) -> String {
+    // change player two's payoff of the first terminal by one unit
+    match s.find("t \"\" ") {
+        None => s.to_string(),
+        Some(i) => {
+            let line_end = s[i..].find('\n').map(|e| i + e).unwrap_or(s.len());
+            let line = &s[i..line_end];
+            match line.rfind(", ") {
+                None => s.to_string(),
+                Some(c) => {
+                    let new_line = format!("{}, 977 }}", &line[..c]);
+                    format!("{}{}{}", &s[..i], new_line, &s[line_end..])
+                }
+            }
+        }
+    }
+}
+
+fn huge_payoffs(s: &str) -> String {
+    match s.find("t \"\" ") {
+        None => s.to_string(),
+        Some(i) => {
+            let line_end = s[i..].find('\n').map(|e| i + e).unwrap_or(s.len());
+            let line = &s[i..line_end];
+            match line.find("{ ") {
+                None => s.to_string(),
+                Some(c) => format!("{}{}{{ 1e999, -1e999 }}{}", &s[..i], &line[..c], &s[line_end..]),
+            }
+        }
+    }
+}
+
+fn break_probability(s: &str) -> String {
+    match s.find("c \"\" ") {
+        None => s.to_string(),
+        Some(i) => match s[i..].find("/") {
+            None => s.to_string(),
+            Some(j) => {
+                // numerator just before the slash: prepend a digit
+                let at = i + j;
+                format!("{}9{}", &s[..at], &s[at..])
+            }
+        },
+    }
+}
+
+fn same_infoset_names(s: &str) -> String {
+    // give every named infoset of player 1 the same name
+    let mut out = String::new();
+    let mut changed = 0;
+    for line in s.lines() {
+        if line.starts_with("p \"\" 1 ") {
+            let parts: Vec<&str> = line.splitn(6, ' ').collect();
+            // p "" 1 <num> "name" { ... } or p "" 1 <num> { ...
+            if parts.len() == 6 && parts[4].starts_with('"') && parts[4].ends_with('"') {
+                out.push_str(&format!("p \"\" 1 {} \"same\" {}\n", parts[3], parts[5]));
+                changed += 1;
+                continue;
+            }
+        }
+        out.push_str(line);
+        out.push('\n');
+    }
+    // only a clash if two *distinct* infoset numbers were renamed
+    let nums: BTreeSet<String> = out
+        .lines()
+        .filter(|l| l.starts_with("p \"\" 1 ") && l.contains("\"same\""))
+        .map(|l| l.split(' ').nth(3).unwrap_or("").to_string())
+        .collect();
+    if changed >= 2 && nums.len() >= 2 {
+        out
+    } else {
+        s.to_string()
+    }
+}
+
+fn number_name_clash(s: &str) -> String {
+    // name one infoset of player 1 with the number of an unnamed infoset of player 1
+    let mut unnamed: Option<String> = None;
+    for line in s.lines() {
+        if line.starts_with("p \"\" 1 ") {
+            let parts: Vec<&str> = line.splitn(6, ' ').collect();
+            if parts.len() >= 5 && parts[4] == "{" {
+                unnamed = Some(parts[3].to_string());
+                break;
+            }
+        }
+    }
+    let un = match unnamed {
+        Some(u) => u,
+        None => return s.to_string(),
+    };
+    let mut out = String::new();
+    let mut done = false;
+    for line in s.lines() {
+        if !done && line.starts_with("p \"\" 1 ") {
+            let parts: Vec<&str> = line.splitn(6, ' ').collect();
+            if parts.len() == 6 && parts[4].starts_with('"') && parts[3] != un {
+                // rename every occurrence of this infoset number consistently
+                let num = parts[3].to_string();
+                let old = parts[4].to_string();
+                let renamed = s.replace(&format!("p \"\" 1 {} {} ", num, old), &format!("p \"\" 1 {} \"{}\" ", num, un));
+                out = renamed;
+                done = true;
+                break;
+            }
+        }
+    }
+    if done {
+        out
+    } else {
+        s.to_string()
+    }
+}
